@@ -33,6 +33,12 @@ func (handler *BlockHandler) Handle(ctx context.Context, m wire.Message) ([]wire
 
 		logger.Verbose(ctx, "Received block : %s", hash)
 
+		if !block.IsMerkleRootValid() {
+			// The transactions don't belong to this header. Leave the request outstanding.
+			logger.Warn(ctx, "Invalid merkle root for block : %s", hash)
+			return nil, nil
+		}
+
 		if handler.blockRefeeder != nil && handler.blockRefeeder.SetBlock(*hash, block) {
 			return nil, nil
 		}
@@ -49,6 +55,12 @@ func (handler *BlockHandler) Handle(ctx context.Context, m wire.Message) ([]wire
 		hash := block.Header.BlockHash()
 
 		logger.Verbose(ctx, "Received block : %s", hash)
+
+		if !block.IsMerkleRootValid() {
+			// The transactions don't belong to this header. Leave the request outstanding.
+			logger.Warn(ctx, "Invalid merkle root for block : %s", hash)
+			return nil, nil
+		}
 
 		if handler.blockRefeeder != nil && handler.blockRefeeder.SetBlock(*hash, block) {
 			return nil, nil
